@@ -81,6 +81,7 @@ pub type CheckResult = Result<(), Failure>;
 pub struct Obs {
     labels: RefCell<Vec<&'static str>>,
     nontrivial: Cell<Option<u64>>,
+    extra_evals: Cell<u64>,
 }
 
 impl Obs {
@@ -88,7 +89,13 @@ impl Obs {
         Obs {
             labels: RefCell::new(Vec::new()),
             nontrivial: Cell::new(None),
+            extra_evals: Cell::new(0),
         }
+    }
+    /// Count executions performed inside one check beyond the case itself
+    /// (fault enumeration: one base case, many injected faults).
+    pub fn executions(&self, n: u64) {
+        self.extra_evals.set(self.extra_evals.get() + n);
     }
     /// Count this case under a generator-distribution label.
     pub fn label(&self, l: &'static str) {
@@ -346,7 +353,7 @@ impl Engine {
     }
 
     fn absorb(&self, obs: &Obs, sample: impl FnOnce() -> Value, local: &mut LocalStats) {
-        local.evaluations += 1;
+        local.evaluations += 1 + obs.extra_evals.get();
         for l in obs.labels.borrow_mut().drain(..) {
             *local.labels.entry(l).or_insert(0) += 1;
         }
@@ -574,7 +581,7 @@ impl Engine {
                         enumerate(part, &mut |case: C| {
                             let obs = Obs::new();
                             let r = guarded(|| check(&case, &obs));
-                            local.evaluations += 1;
+                            local.evaluations += 1 + obs.extra_evals.get();
                             for l in obs.labels.borrow_mut().drain(..) {
                                 *local.labels.entry(l).or_insert(0) += 1;
                             }
